@@ -10,7 +10,7 @@ import os
 from .. import tlc, wtree
 
 ENCS = ["utf8", "wide", "narrow"]
-NONASCII_TEXTS = {"cjk", "cjk1", "acjk", "comb", "comb0", "dec", "mixed"}
+NONASCII_TEXTS = {"cjk", "cjk1", "acjk", "comb", "comb0", "dec", "mixed", "mk2"}
 ENC_SENSITIVE_KINDS = {"LineBox", "BigText", "ProgressBar", "BarGraph", "ScrollBar", "CheckBox", "RadioButton", "Button"}
 
 GEN_CFG = """CONSTANTS Profile = "{profile}" LeafSet = "{leaf}" MaxDepth = {d} MaxKids = {kids} SibDepth = {sib} MaxNodes = {nodes} Sim = {sim} Kinds = "{kinds}"
